@@ -67,7 +67,7 @@ def main(argv=None):
         if a.tier == "thorough" and not a.no_selftest:
             from sa.selftest import bank
 
-            st = bank.run_for_property(prop)
+            st = bank.run_for_property(prop, jobs=min(16, (os.cpu_count() or 4)))
             if st["failed"]:
                 for f in st["failed"]:
                     print(f"ANALYSIS-ERROR selftest {f}")
